@@ -731,6 +731,12 @@ func c01Scenarios(tier string) []scenario {
 		prm := c05Params{Prop: "C01", Name: "WA", K: k, Writers: [][]wop{{{Stream: true, Chunks: []int{600}, Abandon: true}, {Text: true, Chunks: []int{700}}}}}
 		scs = append(scs, scenario{Name: prm.Name + "/" + k.String(), Cfg: explore.Config{P: p, Horizon: 60e9}, Setup: c05Setup(prm)})
 	}
+	// three writers on a compressed connection (two preemptions: a writer that has just
+	// finished, one in the middle of its message and one waiting for the message lock)
+	for _, k := range []connCfg{{Client: false, Flate: true, Thr: 1}, {Client: true, Flate: true, Thr: 1}} {
+		prm := c05Params{Prop: "C01", Name: "W3", K: k, Writers: [][]wop{{{Chunks: []int{10}}, {Chunks: []int{11}}}, {{Text: true, Chunks: []int{12}}}, {{Stream: true, Chunks: []int{6, 7}}}}}
+		scs = append(scs, scenario{Name: prm.Name + "/" + k.String(), Cfg: explore.Config{P: 2, Horizon: 60e9}, Setup: c05Setup(prm)})
+	}
 	for _, k := range []connCfg{{Client: true}, {Client: false}} {
 		for _, prm := range []c05Params{
 			{Prop: "C01", Name: "WP-4088", K: k, Writers: [][]wop{{{Stream: true, Chunks: []int{4088, 100}}}}, Pinger: true},
